@@ -126,3 +126,91 @@ pub fn c14_key_from_shares_decrypts(ct: &ElGamalCiphertext, sk: &SecretKey, shar
         Err(_) => {}
     }
 }
+
+/// verifier's recomputation gives back the prover's commitments:
+///   -c*(b) + (r + c*b)            == r                 (r1, in units of G)
+///   -c*(b*x + m*g) + (b + c*m)*g + (r + c*b)*x  == r*x + b*g     (r2)
+pub proof fn lemma_eg_completeness(b: int, r: int, c: int, m: int, x: int, g: int)
+    requires inr(b), inr(r), inr(c), inr(m), inr(x), inr(g),
+    ensures
+        fadd(fmul(fmul(1, b), fneg(c)), fmul(1, fadd(r, fmul(c, b)))) == fmul(1, r),
+        fadd(fadd(fmul(fadd(fmul(x, b), fmul(g, m)), fneg(c)), fmul(g, fadd(b, fmul(c, m)))), fmul(x, fadd(r, fmul(c, b))))
+            == fadd(fmul(x, r), fmul(g, b)),
+{
+    // ---- r1 ----
+    lemma_mul_comm(1, b); lemma_mul_one(b);
+    lemma_range_add(r, fmul(c, b)); lemma_range_mul(c, b);
+    lemma_mul_comm(1, fadd(r, fmul(c, b))); lemma_mul_one(fadd(r, fmul(c, b)));
+    lemma_mul_comm(1, r); lemma_mul_one(r);
+    lemma_mul_neg(b, c);                       // b*(-c) == -(b*c)
+    lemma_mul_comm(b, c);
+    let cb = fmul(c, b);
+    // -(cb) + (r + cb) == r
+    lemma_add_comm(r, cb);
+    lemma_add_assoc(fneg(cb), cb, r);
+    lemma_add_comm(fneg(cb), cb); lemma_add_neg(cb);
+    lemma_add_comm(0, r); lemma_add_zero(r);
+    assert(fadd(fneg(cb), fadd(cb, r)) == r);
+    // ---- r2 ----
+    let xb = fmul(x, b); let gm = fmul(g, m); let xr = fmul(x, r); let gb = fmul(g, b);
+    lemma_range_mul(x, b); lemma_range_mul(g, m); lemma_range_mul(x, r); lemma_range_mul(g, b); lemma_range_mul(c, m);
+    // (xb + gm)*(-c) == -(c*xb) + -(c*gm)
+    lemma_mul_neg(fadd(xb, gm), c);
+    lemma_mul_comm(fadd(xb, gm), c);
+    lemma_distrib(c, xb, gm);
+    let cxb = fmul(c, xb); let cgm = fmul(c, gm);
+    lemma_range_mul(c, xb); lemma_range_mul(c, gm);
+    lemma_neg_add(cxb, cgm);
+    // g*(b + c*m) == gb + c*gm
+    lemma_distrib(g, b, fmul(c, m));
+    lemma_mul_assoc(g, c, m); lemma_mul_comm(g, c); lemma_mul_assoc(c, g, m);
+    assert(fmul(g, fmul(c, m)) == cgm);
+    // x*(r + c*b) == xr + c*xb
+    lemma_distrib(x, r, cb);
+    lemma_mul_assoc(x, c, b); lemma_mul_comm(x, c); lemma_mul_assoc(c, x, b);
+    assert(fmul(x, cb) == cxb);
+    // (-cxb + -cgm) + (gb + cgm) + (xr + cxb) == xr + gb
+    let n1 = fneg(cxb); let n2 = fneg(cgm);
+    lemma_range_neg(cxb); lemma_range_neg(cgm);
+    // first two groups: (n1 + n2) + (gb + cgm) == (n1 + gb) + (n2 + cgm) == n1 + gb
+    lemma_add_swap4(n1, n2, gb, cgm);
+    lemma_add_comm(n2, cgm); lemma_add_neg(cgm);
+    lemma_range_add(n1, gb); lemma_add_zero(fadd(n1, gb));
+    assert(fadd(fadd(n1, n2), fadd(gb, cgm)) == fadd(n1, gb));
+    // (n1 + gb) + (xr + cxb) == (n1 + cxb) + (gb + xr) == gb + xr
+    lemma_add_comm(xr, cxb);
+    lemma_add_swap4(n1, gb, cxb, xr);
+    lemma_add_comm(n1, cxb); lemma_add_neg(cxb);
+    lemma_range_add(gb, xr); lemma_add_comm(0, fadd(gb, xr)); lemma_add_zero(fadd(gb, xr));
+    lemma_add_comm(gb, xr);
+}
+
+/// proof completeness: the proof attached to an honest ciphertext verifies for the recipient key and
+/// decrypts under the recipient's secret key to m * generator (hypotheses: the values an honest
+/// prover draws are non-zero — true except with negligible probability)
+pub fn c14_honest_proof_verifies(sk: &SecretKey, m: &SecretKey)
+    requires sk.0.val() != 0, eg_gen().dl() != 0,
+{
+    let pk = sk.public_key();
+    proof { lemma_mul_comm(1, sk.0.val()); lemma_mul_one(sk.0.val()); }
+    let p = pk.encrypt_key_el_gamal_with_proof(m);
+    assert(p is Ok);
+    match p {
+        Ok(p) => {
+            proof {
+                let (b, r) = choose|b: Scalar, r: Scalar| #[trigger] eg_proof_from(b, r, pk.0, m.0, eg_gen(), egp_tuple(p));
+                let c = p.challenge;
+                lemma_eg_completeness(b.val(), r.val(), c.val(), m.0.val(), pk.0.dl(), eg_gen().dl());
+                lemma_mul_comm(c.val(), m.0.val()); lemma_mul_comm(c.val(), b.val());
+                assert(eg_r1v(p.ciphertext.c1, p.blinder_proof, c) == eg_c1(r));
+                assert(eg_r2v(pk.0, eg_gen(), p.ciphertext.c2, p.message_proof, p.blinder_proof, c) == eg_c2(pk.0, b, eg_gen(), r));
+            }
+            let v = p.verify(pk);
+            // X-NONZERO: ciphertext components, proof scalars and challenge of an honest proof are non-zero
+            assert(eg_guards(pk.0, eg_gen(), p.ciphertext.c1, p.ciphertext.c2, p.message_proof, p.blinder_proof, p.challenge) ==> v is Ok);
+            let d = p.verify_and_decrypt(sk);
+            assert(v is Ok ==> d is Ok && d->Ok_0 == pk_sub(p.ciphertext.c2, pk_mul(p.ciphertext.c1, sk.0)));
+        }
+        Err(_) => {}
+    }
+}
